@@ -147,6 +147,22 @@ class RefTerm:
             j += 1
         if j >= n:
             return None
+        if 0x20 <= ord(s[j]) <= 0x2F:
+            # intermediate bytes.  A parameter byte after an intermediate makes the sequence malformed: xterm (the VT500
+            # parser's "CSI ignore" state) swallows it up to the final byte and does nothing - e.g. ESC[-1;1H
+            k, malformed = j, False
+            while k < n and not (0x40 <= ord(s[k]) <= 0x7E):
+                if 0x30 <= ord(s[k]) <= 0x3F:
+                    malformed = True
+                elif not (0x20 <= ord(s[k]) <= 0x2F):
+                    raise Unsupported(f"character {s[k]!r} inside a control sequence")
+                k += 1
+            if k >= n:
+                return None
+            if malformed:
+                self.ignored_sequences = getattr(self, "ignored_sequences", 0) + 1
+                return k + 1
+            raise Unsupported(f"CSI {s[i + 2 : k + 1]!r} (intermediate bytes)")
         final = s[j]
         params = s[i + 2 : j]
         self._csi(params, final)
